@@ -161,6 +161,40 @@ def exact_cyclic_order(pts, centre, N, start):
     return order
 
 
+def with_hanging_nodes(poly, rng, every_edge=False):
+    """Insert collinear intermediate integer vertices on the edges (the polygon is doubled
+    first so that every edge has an integer midpoint)."""
+    poly = [[2 * p[0], 2 * p[1]] for p in poly]
+    out = []
+    n = len(poly)
+    for i in range(n):
+        a, b = poly[i], poly[(i + 1) % n]
+        out.append(a)
+        if every_edge or rng.random() < 0.6:
+            g = math.gcd(abs(b[0] - a[0]), abs(b[1] - a[1]))
+            ks = sorted(rng.sample(range(1, g), min(g - 1, rng.choice([1, 1, 2]))))
+            for k in ks:
+                out.append([a[0] + (b[0] - a[0]) * k // g, a[1] + (b[1] - a[1]) * k // g])
+    return out
+
+
+def all_listings(poly):
+    """Every rotation of the vertex list, in both orientations."""
+    res = []
+    for q in (poly, poly[::-1]):
+        for k in range(len(q)):
+            res.append(q[k:] + q[:k])
+    return res
+
+
+HANGING_FIXED = [
+    [[0, 0], [2, 0], [4, 0], [4, 2], [4, 4], [2, 4], [0, 4], [0, 2]],          # square, a node on every edge
+    [[0, 0], [4, 0], [4, 4], [0, 4], [0, 3], [0, 1]],                          # two nodes on the left edge
+    [[0, 0], [4, 0], [4, 4], [2, 4], [2, 2], [1, 2], [0, 2], [0, 1]],          # L with hanging nodes
+    [[0, 0], [3, -1], [6, 0], [6, 2], [6, 5], [3, 6], [0, 5], [0, 3]],         # hexagon, vertical sides
+]
+
+
 def _quad_tris(q):
     return [[q[0], q[1], q[2]], [q[0], q[2], q[3]]]
 
@@ -241,8 +275,12 @@ class C31(Prop):
                  "vm_compute execution correspondence + exact rational oracles")
     rule = ("per case one function: integer polygons (convex hulls, star-shaped, fixed "
             "non-convex families under symmetries/translations) with every integer point of "
-            "the surrounding box; collinear/planar point sets exact and clearly off; half-space "
-            "systems of boxes/tetrahedra; chains and cycles of labelled pairs shuffled and "
+            "the surrounding box; polygons with hanging (collinear) vertices on every edge, all "
+            "rotations and both orientations of fixed hanging-node polygons in every run; "
+            "collinear/planar point sets exact and clearly off; half-space "
+            "systems of boxes/tetrahedra, with repeated normals at different offsets in both "
+            "orders, exact duplicates, scaled normals and slabs, and test points between the "
+            "parallel planes; chains and cycles of labelled pairs shuffled and "
             "flipped, plus broken inputs; planar point sets around a centre in axis-aligned and "
             "tilted planes with points exactly on the half-axes through the centre; polyhedra (boxes, tetrahedra, L-prisms) with grid "
             "points; non-trivial = the answer is not constant by construction (both outcomes "
@@ -326,12 +364,29 @@ class C31(Prop):
              "circ": True, "valid": False},
             {"fn": "halfspace", "n": [[0, 1, 0]], "x0": [[0, 0, 0], [1, 0, 0]], "pts": [[0, 0, 0]]},
         ]
+        for poly in HANGING_FIXED:
+            for q in all_listings(poly):
+                fixed.append({"fn": "ccw_polygon", "poly": q})
+        along = [[0, 0, t] for t in range(-2, 7)] + [[1, -1, 2], [3, 2, 3]]
+        for planes in (
+                [([0, 0, 1], [0, 0, 4]), ([0, 0, 1], [0, 0, 1])],               # weaker first
+                [([0, 0, 1], [0, 0, 1]), ([0, 0, 1], [0, 0, 4])],               # tighter first
+                [([0, 0, 1], [0, 0, 4]), ([0, 0, 1], [5, 5, 4])],               # same plane twice
+                [([0, 0, 1], [0, 0, 3]), ([0, 0, 1], [0, 0, 3])],               # exact duplicate
+                [([0, 0, 1], [0, 0, 4]), ([0, 0, -1], [0, 0, 1])],              # slab 1 <= z <= 4
+                [([0, 0, 2], [0, 0, 4]), ([0, 0, 1], [0, 0, 1]), ([0, 0, -1], [0, 0, -1])],
+        ):
+            fixed.append({"fn": "halfspace", "n": [p[0] for p in planes],
+                          "x0": [p[1] for p in planes], "pts": along})
         for c in fixed:
             yield c
         for _ in range(n - len(fixed)):
             r = rng.random()
             if r < 0.30:
                 poly, kind = self._polygon(rng)
+                if rng.random() < 0.3:
+                    poly = with_hanging_nodes(poly, rng)
+                    kind += "+hanging"
                 xs = [p[0] for p in poly]
                 ys = [p[1] for p in poly]
                 allpts = [[x, y] for x in range(min(xs) - 1, max(xs) + 2)
@@ -346,7 +401,9 @@ class C31(Prop):
                 yield case
             elif r < 0.36:
                 poly, kind = self._polygon(rng)
-                yield {"fn": "ccw_polygon", "poly": poly}
+                if rng.random() < 0.7:
+                    poly = with_hanging_nodes(poly, rng, every_edge=rng.random() < 0.5)
+                yield {"fn": "ccw_polygon", "poly": rng.choice(all_listings(poly))}
             elif r < 0.44:
                 p1, p2, p3 = ([rng.randint(-5, 5), rng.randint(-5, 5)] for _ in range(3))
                 if rng.random() < 0.3:
@@ -404,9 +461,39 @@ class C31(Prop):
                     ns = [[-1, 0, 0], [0, -1, 0], [0, 0, -1], [1, 1, 1]]
                     s = rng.randint(1, 5)
                     x0 = [[0, 0, 0], [0, 0, 0], [0, 0, 0], [s, 0, 0]]
+                pts = [[rng.randint(-4, 5) for _ in range(3)] for _ in range(rng.randint(1, 12))]
+                if rng.random() < 0.5:
+                    # repeated / opposite normals at different offsets, in either order
+                    nv = rng.choice([[1, 0, 0], [0, 1, 0], [0, 0, 1], [1, 1, 0], [1, -2, 2], [0, 3, 4]])
+                    base = [rng.randint(-2, 2) for _ in range(3)]
+                    offs = rng.sample(range(-3, 5), 3)
+
+                    def at(t):
+                        return [base[i] + t * nv[i] for i in range(3)]
+                    mode = rng.choice(["two", "two", "dup", "slab", "three", "scaled"])
+                    if mode == "two":
+                        extra = [(nv, at(offs[0])), (nv, at(offs[1]))]
+                    elif mode == "dup":
+                        extra = [(nv, at(offs[0])), (nv, at(offs[0]))]
+                    elif mode == "slab":
+                        lo_, hi_ = sorted(offs[:2])
+                        extra = [(nv, at(hi_)), ([-x for x in nv], at(lo_))]
+                    elif mode == "three":
+                        extra = [(nv, at(offs[0])), (nv, at(offs[1])), (nv, at(offs[2]))]
+                    else:
+                        extra = [([2 * x for x in nv], at(offs[0])), (nv, at(offs[1]))]
+                    rng.shuffle(extra)
+                    if rng.random() < 0.5:
+                        ns, x0 = [], []
+                    pos = rng.randint(0, len(ns))
+                    ns = ns[:pos] + [e[0] for e in extra] + ns[pos:]
+                    x0 = x0[:pos] + [e[1] for e in extra] + x0[pos:]
+                    # test points between / beyond the parallel planes
+                    pts = pts[:4] + [[base[i] + t * nv[i] + d[i] for i in range(3)]
+                                     for t in range(-4, 6)
+                                     for d in ([0, 0, 0], rng.choice([[1, 0, 0], [0, -1, 0], [0, 0, 1]]))]
                 if rng.random() < 0.08:
                     x0 = x0[:-1]
-                pts = [[rng.randint(-4, 5) for _ in range(3)] for _ in range(rng.randint(1, 12))]
                 yield {"fn": "halfspace", "n": ns, "x0": x0, "pts": pts}
             elif r < 0.84:
                 m = rng.randint(2, 8)
